@@ -28,6 +28,52 @@ impl Drop for Pl {
         self.dropped.store(true, Ordering::SeqCst);
     }
 }
+/// what the harness needs from a target type
+pub trait Target: Val + Sized + 'static {
+    const NAME: &'static str;
+    fn fresh(flag: &Arc<AtomicBool>) -> Self;
+}
+impl Target for Pl {
+    const NAME: &'static str = "align8";
+    fn fresh(flag: &Arc<AtomicBool>) -> Pl {
+        Pl { v: 0, dropped: flag.clone() }
+    }
+}
+/// The same payload in types whose layout is unusual: over-aligned (cache-line and page), so
+/// that the value does not sit at the customary distance behind an Rc/Arc header or a lock word.
+#[repr(align(64))]
+pub struct PlWide(Pl);
+#[repr(align(4096))]
+pub struct PlPage(Pl, [u64; 3]);
+impl Val for PlWide {
+    fn getv(&self) -> i64 {
+        self.0.v
+    }
+    fn setv(&mut self, v: i64) {
+        self.0.v = v;
+    }
+}
+impl Target for PlWide {
+    const NAME: &'static str = "align64";
+    fn fresh(flag: &Arc<AtomicBool>) -> PlWide {
+        PlWide(Pl::fresh(flag))
+    }
+}
+impl Val for PlPage {
+    fn getv(&self) -> i64 {
+        assert_eq!(self.1, [7, 8, 9], "payload padding words overwritten");
+        self.0.v
+    }
+    fn setv(&mut self, v: i64) {
+        self.0.v = v;
+    }
+}
+impl Target for PlPage {
+    const NAME: &'static str = "align4096";
+    fn fresh(flag: &Arc<AtomicBool>) -> PlPage {
+        PlPage(Pl::fresh(flag), [7, 8, 9])
+    }
+}
 
 #[derive(Clone, Copy, Debug, PartialEq)]
 pub enum Variant {
@@ -76,11 +122,11 @@ impl Variant {
     }
 }
 
-enum Handle {
-    C(Reference<Pl>),
+enum Handle<P: Target> {
+    C(Reference<P>),
     D(Reference<dyn Val>),
 }
-impl Handle {
+impl<P: Target> Handle<P> {
     fn read(&self) -> i64 {
         match self {
             Handle::C(r) => {
@@ -98,7 +144,7 @@ impl Handle {
             Handle::D(r) => r.borrow_mut().setv(v),
         }
     }
-    fn dup(&self) -> Handle {
+    fn dup(&self) -> Handle<P> {
         match self {
             Handle::C(r) => Handle::C(r.clone()),
             Handle::D(r) => Handle::D(r.clone()),
@@ -107,17 +153,17 @@ impl Handle {
 }
 
 /// the leaked allocation of pointer variants, reclaimed by the harness after the run
-enum Leak {
+enum Leak<P> {
     None,
-    P(*mut Pl),
+    P(*mut P),
     #[cfg(feature = "std")]
-    RW(*mut std::sync::RwLock<Pl>),
+    RW(*mut std::sync::RwLock<P>),
     #[cfg(feature = "std")]
-    MX(*mut std::sync::Mutex<Pl>),
+    MX(*mut std::sync::Mutex<P>),
 }
 
-fn make(v: Variant, flag: &Arc<AtomicBool>) -> (Reference<Pl>, Leak) {
-    let pl = Pl { v: 0, dropped: flag.clone() };
+fn make<P: Target>(v: Variant, flag: &Arc<AtomicBool>) -> (Reference<P>, Leak<P>) {
+    let pl = P::fresh(flag);
     match v {
         Variant::Ptr => {
             let p = Box::into_raw(Box::new(pl));
@@ -147,13 +193,13 @@ fn show(seq: &[usize]) -> String {
     seq.iter().map(|&s| format!("{}(h{})", OPN[s / SLOTS], s % SLOTS)).collect::<Vec<_>>().join(",")
 }
 
-fn run_seq(v: Variant, seq: &[usize], e: &mut Eng) -> u64 {
+fn run_seq<P: Target>(v: Variant, seq: &[usize], e: &mut Eng) -> u64 {
     let flag = Arc::new(AtomicBool::new(false));
-    let mut leak = Leak::None;
+    let mut leak: Leak<P> = Leak::None;
     let r = guard(|| -> Result<bool, (usize, String)> {
-        let (orig, l) = make(v, &flag);
+        let (orig, l) = make::<P>(v, &flag);
         leak = l;
-        let mut hs: [Option<Handle>; SLOTS] = [Some(Handle::C(orig)), None, None];
+        let mut hs: [Option<Handle<P>>; SLOTS] = [Some(Handle::C(orig)), None, None];
         let mut cell: i64 = 0; // model: one cell
         let mut count = 1usize; // model: number of live handles
         let mut interesting = false;
@@ -242,29 +288,62 @@ fn run_seq(v: Variant, seq: &[usize], e: &mut Eng) -> u64 {
                 e.nontrivial += 1;
             }
         }
-        Ok(Err((k, m))) => e.violation(&format!("reference:{:?}:aliasing", v), k + 1, || format!("{:?} ops [{}]: {}", v, show(&seq[..seq.len().min(k + 1)]), m)),
+        Ok(Err((k, m))) => e.violation(&format!("reference:{:?}:aliasing", v), k + 1, || format!("{:?} target {} ops [{}]: {}", v, P::NAME, show(&seq[..seq.len().min(k + 1)]), m)),
         Err(m) => {
             let cls = if m.contains("not implemented") { "to_dyn-unimplemented" } else { "panic" };
-            e.violation(&format!("reference:{:?}:{}", v, cls), seq.len(), || format!("{:?} ops [{}] panicked: {}", v, show(seq), m))
+            e.violation(&format!("reference:{:?}:{}", v, cls), seq.len(), || format!("{:?} target {} ops [{}] panicked: {}", v, P::NAME, show(seq), m))
         }
     }
     seq.len() as u64
 }
 
+/// Crash-localising mode (driver sets VERIF_ISOLATE after the normal run died of a signal): the
+/// same sequences, shortest first, one at a time, each announced on stderr before it runs, so that
+/// the last announcement names the operation sequence during which the process was killed.
+fn isolate(ctx: &Ctx) -> Vec<Eng> {
+    let mut e = Eng::new("c17-aliasing-isolate", "crash localisation: sequences of length 1..L, one at a time, announced before execution", "");
+    let maxlen = if ctx.thorough { 5 } else { 4 };
+    for len in 1..=maxlen {
+        let mut seq = vec![0usize; len];
+        for v in variants() {
+            for idx in 0..ipow((5 * SLOTS) as u64, len) {
+                decode(idx, (5 * SLOTS) as u64, &mut seq);
+                e.executions += 3;
+                eprintln!("ISOLATE {:?} align8 [{}]", v, show(&seq));
+                run_seq::<Pl>(v, &seq, &mut e);
+                eprintln!("ISOLATE {:?} align64 [{}]", v, show(&seq));
+                run_seq::<PlWide>(v, &seq, &mut e);
+                eprintln!("ISOLATE {:?} align4096 [{}]", v, show(&seq));
+                run_seq::<PlPage>(v, &seq, &mut e);
+            }
+        }
+    }
+    eprintln!("ISOLATE-DONE");
+    vec![e]
+}
+
 pub fn run(ctx: &Ctx) -> Vec<Eng> {
+    if std::env::var("VERIF_ISOLATE").is_ok() {
+        return isolate(ctx);
+    }
     let budget = Budget::secs(if ctx.thorough { 2000 } else { 120 });
     let depth = if ctx.thorough { 7 } else { 5 };
     let mut e = Eng::new(
         "c17-aliasing-seqs",
         "for each Reference variant of the build: all sequences of exactly `depth` operations over {clone(h), to_dyn!(h) (variants the macro lists), read(h) (through borrow and borrow_mut), write(h, fresh value), drop(h)} x 3 handle slots on a fresh target; reference model = one cell + live-handle count: every read through any handle returns the last write, the payload's drop flag flips exactly when the last handle of an Rc/Arc variant goes away and never for pointer variants; non-trivial = a read while at least two handles are live, or a to_dyn! conversion",
-        &format!("depth {} => 15^{} sequences x {} variants", depth, depth, variants().len()),
+        &format!("depth {} => 15^{} sequences x {} variants on an 8-aligned target, 15^{} on 64- and 4096-aligned targets", depth, depth, variants().len(), depth - 1),
     );
     for v in variants() {
         par_seqs(&mut e, 5 * SLOTS, depth, budget, |seq, e| {
             e.outcome(h64(&(v as u8, seq)));
-            let a = run_seq(v, seq, e);
+            let a = run_seq::<Pl>(v, seq, e);
             e.sample(|| format!("{:?} [{}]", v, show(seq)));
             a
+        });
+        // the same sequences (one step shorter) on over-aligned targets
+        par_seqs(&mut e, 5 * SLOTS, depth - 1, budget, |seq, e| {
+            e.outcome(h64(&(v as u8, 64u8, seq)));
+            run_seq::<PlWide>(v, seq, e) + run_seq::<PlPage>(v, seq, e)
         });
     }
     // long sequences: default op = read(h0); up to k deviations (any other op) in 12 steps
@@ -280,7 +359,10 @@ pub fn run(ctx: &Ctx) -> Vec<Eng> {
             e.executions += 1;
             e.states += 1;
             e.max_depth = e.max_depth.max(hz as u64);
-            e.transitions += run_seq(v, &seq, e);
+            e.transitions += run_seq::<Pl>(v, &seq, e);
+            if c.len() <= 1 {
+                e.transitions += run_seq::<PlWide>(v, &seq, e);
+            }
         });
     }
     e.bounds.push_str(&format!("; plus all 12-operation sequences within {} deviations of read(h0) repeated", k));
